@@ -1,6 +1,8 @@
 /* k8.c -- multi-threaded white-box driver (properties C08 / C09 / C04(b)).
  *
  *   k8 <dbdir> <scenario-file> [key=value ...]
+ *     seed= mode= yield= sleep= (permille) spur= (permille) pct_d= pct_k= abs=0|1 timeout= deadline= (s) reopen=0|1
+ *     keys=k1,k2,... (point-read after the run)  write_buffer= max_file_size= block_size= mmap= compression= paranoid=
  *
  * Runs the per-thread operation lists of a SCENARIO on the real lcdb (pthread build)
  * under a perturbed schedule and prints
@@ -120,7 +122,7 @@ static volatile long g_step = 0;
 /* parameters */
 static uint64_t p_seed = 1;
 static int p_mode = 1, p_yield = 60, p_sleep = 15, p_spur = 0, p_abs = 0, p_timeout = 10, p_deadline = 120;
-static int p_pct_d = 3, p_pct_k = 4000, p_reopen = 1, p_start_sd = 0;
+static int p_pct_d = 3, p_pct_k = 4000, p_reopen = 1;
 static long g_cp[16];
 static char *p_keys = NULL;
 
